@@ -13,7 +13,7 @@ def run(ctx):
         nrand = 40
     else:
         pairs = {(1024, 1024), (1024, 2048), (2048, 1024), (2048, 2048), (2048, 4096), (4096, 2048), (4096, 4096)}
-        nrand = 400
+        nrand = 2000
     consts = {"KeyPairs": pairs, "NRand": nrand}
 
     def sig(v, c):
@@ -51,6 +51,7 @@ def run(ctx):
     ctx.notes["result_codes_of_the_shapes"] = codes
     ctx.notes["process_aborts"] = aborted
     ctx.cov["evaluations"] = len(cases) + tot["n"]
+    ctx.cov["exhaustive"] = False      # the shape classes are enumerated completely, the byte mutations around them are sampled
     ctx.assumptions += ["'security error' = a status code of the security group (BadSecurityChecksFailed, BadCertificateInvalid, "
                         "BadSecurityPolicyRejected, BadNoValidCertificates, ... listed in Totality.tla SecurityCodes)",
                         "the peer may hold valid keys (an authenticated but malicious peer): shapes with bogus padding carry a "
